@@ -38,7 +38,7 @@ ASSUMPTIONS = [
     "seeded search: a clean batch is evidence, not proof",
 ]
 RULE = (
-    "phase track: generated program (C16 vocabulary + fan-out, bool/int intermediates, several outputs, inputs with zeros) wrapped by "
+    "phase track: generated program in float32 or (a quarter of the runs) float64 (C16 vocabulary + fan-out, bool/int intermediates, several outputs, inputs with zeros) wrapped by "
     "track_scales, then a history of 2-6 runs (forward-only | backward from a seeded subset of outputs; input values k) with Dynamo "
     "resets and, in 40% of runs, other programs tracked earlier in the same process; phase analyse: analyse_module (recurse_modules on|off) "
     "on the untransformed module vs an independent capture of the same fx graph, in half of the runs after other programs were analysed in the process; "
